@@ -191,7 +191,7 @@ Proof.
   - pose proof (once_issue st c KInfo (fun rid => RInfo rid u)
        (EInfo c (st_next st) (Some E_NOTCONN) 0 None false) I) as H.
     destruct (issue _ _ _ _ _); exact H.
-  - pose proof (once_issue st c KSet (fun rid => RPatch rid u) (EDone c (st_next st) (Some E_NOTCONN)) I) as H.
+  - pose proof (once_issue st c KSet (fun rid => ROpq rid kd u) (EDone c (st_next st) (Some E_NOTCONN)) I) as H.
     destruct (issue _ _ _ _ _); exact H.
   - cbn. eapply once_inv_tbl; [apply tbl_set_cl; reflexivity|exact I].
   - cbn. eapply once_inv_tbl; [|exact I]. repeat split.
